@@ -1,14 +1,158 @@
-"""C20 -- response framing / header injection: bounded (h11 as independent parser); deductive contracts on the
-sanitiser and the first-write decision table to be added."""
-from contracts._parts import bounded, EXPLORATION_NOTE
+"""C20 -- HTTP server responses are framed exactly and headers cannot be injected.
 
-CONTRACTS = []
+Deductive, on the gate every header *name* goes through (Headers.setRawHeaders / addRawHeader / Request.setHeader all call
+it): _NameEncoder.encode, with its process-wide cache as an arbitrary map that satisfies the invariant "only names that
+are tokens are cached, and what is cached for them is a token".  Proved, for every name and every such cache: the call
+either raises InvalidHeaderName or returns a token (so no CR, LF, colon, space or NUL can reach the wire through a header
+name), a name that is not a token is refused whether or not anything is cached, and whatever the call stores in the
+cache keeps the invariant (the seeded changes C19-2 / C20-2 stored a name before testing it).
+Bounded (contracts/parts/C20_bounded.py): whole responses through the real Request / HTTPChannel, parsed by h11.
+"""
+import z3
+
+from pyvc.api import *
+from pyvc import core, models
+from contracts._parts import bounded
+from contracts.C19 import all_tchars
+from twisted.web import http_headers
+
+SEQ = core.IntSeq
+CANON = z3.Function("c20_header_case_of", SEQ, SEQ)
+CACHED = z3.Function("c20_cached_value_for", SEQ, SEQ)
+IN_CACHE = z3.Function("c20_in_cache", SEQ, z3.BoolSort())
+
+
+def token(b):
+    return band(L(b) > 0, all_tchars(b))
+
+
+class Cache(models.SDict):
+    """_canonicalHeaderCache: an arbitrary map; invariant: a cached name is a token and so is its cached value"""
+
+    def get(self, name, default=None):
+        c = ctx()
+        I = c.ghost["$interp"]
+        t = core.seq_term(name, "bytes")
+        if I.truth(core.mk_bool(IN_CACHE(t))):
+            v = core.SSeq(CACHED(t), "bytes")
+            c.assume(core.as_bool_term(band(token(name), token(v))))  # the invariant, assumed of what is found
+            c.check_feasible()
+            c.emit("cache.hit", None, (name, v))
+            return v
+        return default
+
+    def set(self, name, value):
+        c = ctx()
+        # the invariant, demanded of what is stored
+        c.oblige("%s/callout/only-token-names-and-values-are-cached" % c.ghost["$contract"].name, band(token(name), token(value)), "callout")
+        c.emit("cache.store", None, (name, value))
+
+    def length(self):
+        c = ctx()
+        n = z3.Int(c.fresh_name("cache_size"))
+        c.assume(n >= 0)
+        return core.mk_num(n)
+
+
+class Words(list):
+    """bytes_name.split(b'-'): the words are only ever capitalised and joined again with b'-'"""
+
+    def __init__(self, whole):
+        list.__init__(self, [CapWord(whole)])
+
+
+class CapWord:
+    def __init__(self, whole):
+        self.whole = whole
+
+    def capitalize(self):
+        # (an engine-level symbolic object, so that the join over it is routed to the contract's model)
+        return core.SObj(None, "capitalised", {"whole": self.whole}, opaque=True)
+
+
+def split_hook(I, recv, *args, **kw):
+    if len(args) == 1 and args[0] == b"-" and not kw:
+        return Words(recv)
+    return NotImplemented
+
+
+def join_hook(I, recv, parts):
+    """b'-'.join(word.capitalize() for word in name.split(b'-')): Header-Case of the name; bytewise ASCII case mapping,
+    so it is a token whenever the name is"""
+    if recv == b"-" and isinstance(parts, list) and len(parts) == 1 and isinstance(parts[0], core.SObj) and parts[0]._name == "capitalised":
+        whole = parts[0]._fields["whole"]
+        r = core.SSeq(CANON(core.seq_term(whole, "bytes")), "bytes")
+        ctx().assume(core.as_bool_term(bor(bnot(token(whole)), token(r))))
+        return r
+    return NotImplemented
+
+
+class CaseMap(models.SDict):
+    """_caseMappings: the real table (a handful of fixed names with unconventional capitalisation), looked up with a
+    symbolic key"""
+
+    def __init__(self):
+        self.table = dict(http_headers._NameEncoder._caseMappings)
+
+    def has(self, x):
+        r = False
+        for k in sorted(self.table):
+            r = bor(r, veq(x, k))
+        return r
+
+    def get_item(self, x):
+        I = ctx().ghost["$interp"]
+        for k in sorted(self.table):
+            if I.truth(veq(x, k)):
+                return self.table[k]
+        raise KeyError(x)
+
+
+class NameEncode(Contract):
+    prop = "C20"
+    module = "twisted.web.http_headers"
+    function = "_NameEncoder.encode"
+    differential = False
+    calls = {"bytes.split": split_hook, "bytes.join": join_hook}
+    inputs = dict(name=Bytes(alphabet=b"a-:\r\n ", small_len=2))
+    trusted = ["the cache is an arbitrary map that satisfies its invariant on entry (assumed of every hit, demanded of every store)",
+               "Header-Case (split on '-', capitalize, join) is a bytewise ASCII case mapping: the result is a token whenever "
+               "the name is (uninterpreted otherwise)",
+               "_istoken(b) <=> b is non-empty and every byte is an RFC 9110 tchar (C19's IsToken contract)",
+               "bytes names (text names are encoded to ISO-8859-1 first and then take the same path)"]
+    summaries = {"_istoken": lambda I, b: token(b)}
+
+    def setup(self, i):
+        enc = self.make(http_headers._NameEncoder, _canonicalHeaderCache=Cache(), _caseMappings=CaseMap(),
+                        _MAX_CACHED_HEADERS=http_headers._NameEncoder._MAX_CACHED_HEADERS)
+        return dict(self=enc, args=[i.name], objs=dict(e=enc))
+
+    def bounded_inputs(self, tier):
+        return iter(())
+
+    raises = {http_headers.InvalidHeaderName: lambda S: bnot(token(S.i.name))}
+    ensures = dict(only_a_token_is_ever_returned=lambda S: None if S.exc else token(S.result))
+    canaries = [("        if not _istoken(bytes_name):\n            raise InvalidHeaderName(bytes_name)\n", "", "raises/InvalidHeaderName-exactly-when"),
+                ("self._canonicalHeaderCache[name] = result", "self._canonicalHeaderCache[name] = name", None)]
+
+
+CONTRACTS = [NameEncode]
 BOUNDED = bounded("C20")
-NOTES = dict(explanation="response scripts run through the real Request/HTTPChannel and parsed with h11 against a "
-                         "reference model of the statement", not_covered=["deductive contracts"])
-MANIFEST = dict(category="exploration",
-                text="Bounded stand-in with an independent parser (h11): exhaustive short header names/values, cookie "
-                     "components, reason phrases and write sequences through the real Request and HTTPChannel "
-                     "(HTTP/1.0 and 1.1, GET/HEAD, pipelined second request for exact delimitation).",
-                note=EXPLORATION_NOTE,
-                technique="bounded exhaustive evaluation of an executable contract on the real code with h11 as independent parser (stand-in; not proved)")
+_SCOPE = ("response scripts run through the real Request / HTTPChannel and parsed with h11 against a reference model of the "
+          "statement: exhaustive short header names / values, cookie components, reason phrases and write sequences (HTTP/1.0 and "
+          "1.1, GET / HEAD, pipelined second request for exact delimitation)")
+NOTES = dict(explanation="the header-name gate proved for every name and every cache content that satisfies the invariant; values, "
+                         "cookies, status line and framing bounded: " + _SCOPE,
+             not_covered=["header values (_sanitizeLinearWhitespace: bytes.splitlines), cookies, the status line, the framing "
+                          "decision of Request.write / finish: bounded tier only"])
+MANIFEST = dict(
+    category="proof",
+    text="_NameEncoder.encode, the gate every header name passes, is proved for every name and every content of its "
+         "process-wide cache that satisfies the invariant (only token names are cached, with token values): it raises "
+         "InvalidHeaderName exactly when the name is not an RFC 9110 token -- cached or not -- and otherwise returns a token, "
+         "and everything it stores keeps the invariant.  So no CR, LF, colon, space or NUL reaches the wire through a header "
+         "name, on the first use or on a later one.  Header values, cookies, the status line and body framing are exercised in "
+         "the bounded tier only: " + _SCOPE + ".",
+    note="Trusted: pyvc, SMT solvers, Header-Case as a token-preserving mapping, the cache invariant on entry.  Everything else: bounded, never counted as proved.",
+    technique="contract-based deductive verification (symbolic execution with a map model under a data-structure invariant, SMT) + bounded exhaustive responses parsed by h11",
+)
